@@ -629,7 +629,7 @@ SPECS["C07"] = ("""property C07: filter JSON parsing is faithful, order-independ
    MEMBERS with arbitrary JSON values (skipped, state untouched).  Faithfulness on texts with whitespace,
    alternative escapes and duplicates is decided per run by the differential check (all 52x52 letter
    pairs, member orders, escapes, boundaries; python json as independent parser).""",
-  CODIMP + "\nFrom Coq Require Import Permutation.\nFrom Pocket Require Import EscapeRoundTrip JsonRoundTrip FilterRoundTrip JsonSkip FilterAnyOrder.", [
+  CODIMP + "\nFrom Coq Require Import Permutation.\nFrom Pocket Require Import EscapeRoundTrip JsonRoundTrip FilterRoundTrip JsonSkip FilterAnyOrder Spelling.", [
   ("C07_integer_value_partial",
    "forall l, read_u64 l = let '(ds, rest) := span_digits l in\n    match ds with [] => Err EJson | _ => if num_of ds <=? 18446744073709551615 then Ok (num_of ds, rest) else Err EJson end",
    "read_u64_spec", ""),
@@ -640,6 +640,9 @@ SPECS["C07"] = ("""property C07: filter JSON parsing is faithful, order-independ
   ("C07_any_member_order",
    "forall ms tail out, members_wf ms -> filter_size (filter_of ms) <= len out ->\n    filter_from_json (members_text ms tail) out\n    = Ok (len (members_text ms tail) - len tail, enc_filter (filter_of ms), enc_filter (filter_of ms) ++ drop (filter_size (filter_of ms)) out)",
    "filter_any_order", "EVERY list of distinct members (ids/authors/kinds arrays incl. empty ones, limit/since/until < 2^64, one field per tag letter, and UNKNOWN members - keys the parser does not know with any JSON value nested up to depth 128) in ANY order, whatever follows the closing brace: the parse consumes exactly the object and writes the canonical encoding of the denoted filter (absent members take the defaults, limit saturates at 2^32-1, tag fields keep their textual order)"),
+  ("C07_any_spelling_of_tag_values",
+   "forall L cpss pss, is_letter L = true -> Forall2 spelling cpss pss ->\n    tag_ok (L, (map utf8_of cpss, map (@concat N) pss))",
+   "tag_ok_any_spelling", "members_wf (the hypothesis of C07_any_member_order) asks of a tag member only tag_ok, which is stated over the semantic relation escd: so the any-order theorem holds for EVERY escape spelling of every tag value - each character literal, a two-character escape, or \\uXXXX in either hex case (Spelling.v)"),
   ("C07_plain_keys_are_unknown",
    "forall k, Forall (fun c => c <> 34 /\\ c <> 92) k -> ~ In k filter_names ->\n    (forall L, is_letter L = true -> k <> [35; L]) -> unknown_fkey k",
    "plain_unknown_fkey", "every key without quote or backslash other than the six names and the #<letter> keys (incl. search, #ee, #1, id, kind) is an unknown member"),
@@ -661,10 +664,13 @@ Proof.
   - unfold members_wf. refine (conj _ (conj _ _)).
     + assert (R : forall b n, b < 256 -> wf_bytes (repeat b n)) by (intros b n Hb; apply Forall_forall; intros x Hx; apply repeat_spec in Hx; subst x; exact Hb).
       assert (P : forall key, Forall (fun c => c <> 34 /\\ c <> 92) key -> skippable_str key) by exact plain_skippable.
+      assert (T : tag_ok (101, ([[97; 34]; []], [[97; 92; 34]; []]))).
+      { apply tag_ok0_ok. split; [reflexivity|]. cbn [fst snd]. apply Forall2_cons; [|apply Forall2_cons; [|apply Forall2_nil]].
+        - split; [exists [97; 34]; split; [repeat constructor; unfold scalar; lia|reflexivity]|reflexivity].
+        - split; [exists []; split; [constructor|reflexivity]|reflexivity]. }
+      repeat (first [apply Forall_nil | apply Forall_cons]); try exact T;
       repeat constructor; cbn; try lia; try (apply R; lia); try (apply P; repeat constructor; lia);
         try (intros rest; repeat split; reflexivity); try (intros K; reflexivity).
-      * exists [97; 34]. split; [repeat constructor; unfold scalar; lia|reflexivity].
-      * exists []. split; [constructor|reflexivity].
     + repeat constructor; cbn; intuition discriminate.
     + repeat apply conj; vm_compute; reflexivity.
   - vm_compute. reflexivity.
@@ -683,10 +689,16 @@ Proof.
   cbv zeta. refine (conj _ (conj _ (conj eq_refl (conj eq_refl _)))).
   - unfold members_wf. refine (conj _ (conj _ _)).
     + assert (R : forall b n, b < 256 -> wf_bytes (repeat b n)) by (intros b n Hb; apply Forall_forall; intros x Hx; apply repeat_spec in Hx; subst x; exact Hb).
+      assert (T : tag_ok (101, ([[97; 34]; []], [[97; 92; 34]; []]))).
+      { apply tag_ok0_ok. split; [reflexivity|]. cbn [fst snd]. apply Forall2_cons; [|apply Forall2_cons; [|apply Forall2_nil]].
+        - split; [exists [97; 34]; split; [repeat constructor; unfold scalar; lia|reflexivity]|reflexivity].
+        - split; [exists []; split; [constructor|reflexivity]|reflexivity]. }
+      assert (T2 : tag_ok (80, ([repeat 102 64], [repeat 102 64]))).
+      { apply tag_ok0_ok. split; [reflexivity|]. cbn [fst snd]. apply Forall2_cons; [|apply Forall2_nil].
+        split; [exists (repeat 102 64); split; [|vm_compute; reflexivity]|vm_compute; reflexivity].
+        apply Forall_forall. intros x Hx. apply repeat_spec in Hx. subst x. unfold scalar. lia. }
+      repeat (first [apply Forall_nil | apply Forall_cons]); try exact T; try exact T2;
       repeat constructor; cbn; try lia; try (apply R; lia).
-      * exists [97; 34]. split; [repeat constructor; unfold scalar; lia|reflexivity].
-      * exists []. split; [constructor|reflexivity].
-      * exists (repeat 102 64). split; [|vm_compute; reflexivity]. apply Forall_forall. intros x Hx. apply repeat_spec in Hx. subst x. unfold scalar. lia.
     + repeat constructor; cbn; intuition discriminate.
     + repeat apply conj; vm_compute; reflexivity.
   - apply NoDup_Permutation_bis; [repeat constructor; cbn; intuition discriminate|reflexivity|].
